@@ -251,6 +251,13 @@ def structural(ctx):
     r_scalar(ctx)
     r_dispatch(ctx)
     r_forms(ctx)
+    # the distances a caller sees are the kernels' values only if the stored operands are what the metric expects and the
+    # results are not edited on the way out: metric-change re-encoding (C18 rules, incl. truncation to the declared dimension)
+    # and the result-untouched rule of the query entry points
+    from props import C18
+    import reader_rules as rr
+    C18.rules(ctx)
+    rr.r_result_untouched(ctx)
 
 
 def run(ctx):
@@ -268,3 +275,7 @@ def run(ctx):
     r_scalar(ctx)
     r_dispatch(ctx)
     r_forms(ctx)
+    from props import C18
+    import reader_rules as rr
+    C18.rules(ctx)
+    rr.r_result_untouched(ctx)
